@@ -78,6 +78,7 @@ def stepOp (c : Cfg) (s : St) : List String → Option (St × String)
     match s.spans.lookup k with
     | some d => pure ({ s with spans := (k, { d with fields := recordInto d.fields fs }) :: s.spans.filter (·.1 ≠ k) }, "-")
     | none => pure (s, "-")
+  | ["nop"] => some (s, "-")      -- an operation the formatter does not see (its per-layer filter rejected the span / event)
   | ["en", k] => do let k ← k.toNat?; pure (if (s.spans.lookup k).isSome then { s with stack := s.stack ++ [k] } else s, "-")
   | ["ex", k] => do let k ← k.toNat?; pure ({ s with stack := removeLast k s.stack }, "-")
   | ["cl", k] => do let k ← k.toNat?; pure ({ s with spans := s.spans.filter (·.1 ≠ k) }, "-")
